@@ -415,3 +415,139 @@ theorem normalize_scale (t : ℝ) (ht : 0 < t) (v : P3) :
     congr 1 <;> field_simp
 
 end PyrexProofs
+
+namespace PyrexProofs
+
+/-! ## the last leg -/
+
+theorem flipN_not : ∀ (m : Nat) (u : Bool), flipN m (!u) = !(flipN m u) := by
+  intro m
+  induction m with
+  | zero => intro u; simp [flipN]
+  | succ m ih => intro u; simp only [flipN]; rw [ih (!u)]
+
+theorem lastTwo_concat (q : P3) : ∀ (l : List P3) (a : P3), lastTwo ((a :: l) ++ [q]) =
+    some ((a :: l).getLast (by simp), q) := by
+  intro l
+  induction l with
+  | nil => intro a; simp [lastTwo]
+  | cons b rest ih =>
+    intro a
+    have h := ih b
+    simp only [List.cons_append] at h ⊢
+    cases rest with
+    | nil => simp [lastTwo]
+    | cons c rest' =>
+      simp only [List.cons_append] at h ⊢
+      rw [lastTwo]
+      · rw [h]; simp
+      · intro x y; simp at y
+
+theorem uMid_getLast (px py c s lo hi : ℝ) : ∀ (l : List ℝ) (d : ℝ) (acc : ℝ) (up : Bool),
+    (uMid px py c s lo hi acc up (d :: l)).getLast? =
+      some ⟨px + (acc + (d :: l).sum) * c, py + (acc + (d :: l).sum) * s,
+        if flipN l.length up then hi else lo⟩ := by
+  intro l
+  induction l with
+  | nil => intro d acc up; simp [uMid, flipN]
+  | cons d' rest ih =>
+    intro d acc up
+    rw [uMid, List.getLast?_cons, ih d' (acc + d) (!up)]
+    simp only [Option.getD_some, List.sum_cons, List.length_cons, flipN, Option.some.injEq]
+    congr 1 <;> ring
+
+end PyrexProofs
+
+namespace PyrexProofs
+
+theorem neg_one_pow_ite (n : ℕ) : (-1 : ℝ) ^ n = if n % 2 = 0 then 1 else -1 := by
+  rcases Nat.even_or_odd n with h | h
+  · rw [h.neg_one_pow, if_pos (Nat.even_iff.mp h)]
+  · rw [h.neg_one_pow, if_neg (by rw [Nat.odd_iff.mp h]; decide)]
+
+theorem sum_map_mul (k : ℝ) (l : List ℝ) : (l.map (fun d => k * d)).sum = k * l.sum := by
+  induction l with
+  | nil => simp
+  | cons x xs ih => simp only [List.map_cons, List.sum_cons, ih]; ring
+
+/-- the received direction is the direction of the last leg: horizontal part of the line to the mirrored receiver,
+vertical part reversed once per reflection -/
+theorem received_main (I : UIce) (p q : P3) (m : Nat) (up : Bool)
+    (hS : 0 < listSum (uDzs I p.z q.z (m + 1) up)) (hl : 0 < lastLeg I q.z (m + 1) up) :
+    uReceived p q (m + 1) (uPointsDir I p q (m + 1) up) =
+      PyrexR.Uni.normalize ⟨q.x - p.x, q.y - p.y,
+        (-1) ^ (m + 1) * (mirrorZ I.lo I.hi up (m + 1) q.z - p.z)⟩ := by
+  set S := listSum (uDzs I p.z q.z (m + 1) up) with hSdef
+  set k := rho p q / S with hk
+  set dl := lastLeg I q.z (m + 1) up with hdl
+  set σ : ℝ := if up then 1 else -1 with hσ
+  set σf : ℝ := if (if (m + 1) % 2 = 0 then up else !up) then 1 else -1 with hσf
+  have hdepth : mirrorZ I.lo I.hi up (m + 1) q.z - p.z = σ * S := by
+    have h := image_depth I p.z q.z m up
+    rw [← hSdef, ← hσ] at h
+    rw [h]; cases up <;> simp [hσ]
+  have hτ : (-1 : ℝ) ^ (m + 1) * σ = σf := by
+    rw [neg_one_pow_ite, hσ, hσf]
+    by_cases hpar : (m + 1) % 2 = 0 <;> cases up <;> simp [hpar]
+  obtain ⟨hxq, hyq⟩ := x_of_polar p q
+  have hkS : S * k = rho p q := by rw [hk]; field_simp
+  have hsumS : firstLeg I p.z up + m * (I.hi - I.lo) + dl = S := by rw [hSdef, sum_uDzs]
+  -- the right-hand side
+  have hR : (⟨q.x - p.x, q.y - p.y, (-1) ^ (m + 1) * (mirrorZ I.lo I.hi up (m + 1) q.z - p.z)⟩ : P3) =
+      ⟨S * (k * Real.cos (phi p q)), S * (k * Real.sin (phi p q)), S * σf⟩ := by
+    rw [hdepth, ← mul_assoc, hτ]
+    congr 1
+    · rw [← mul_assoc, hkS]; linarith
+    · rw [← mul_assoc, hkS]; linarith
+    · ring
+  -- the last leg
+  have hz : q.z - (if flipN m up then I.hi else I.lo) = dl * σf := by
+    have hf : (if (m + 1) % 2 = 0 then up else !up) = !(flipN m up) := by
+      rw [← flipN_parity (m + 1) up, flipN, flipN_not]
+    rw [hσf, hdl, lastLeg, hf]
+    cases flipN m up <;> simp
+  have hL : uReceived p q (m + 1) (uPointsDir I p q (m + 1) up) =
+      PyrexR.Uni.normalize ⟨dl * (k * Real.cos (phi p q)), dl * (k * Real.sin (phi p q)), dl * σf⟩ := by
+    rw [uPointsDir_succ]
+    simp only [uReceived, Nat.succ_ne_zero, false_and, if_false, List.map_cons]
+    rw [← List.cons_append, lastTwo_concat]
+    simp only [sub3]
+    have hlast := uMid_getLast p.x p.y (Real.cos (phi p q)) (Real.sin (phi p q)) I.lo I.hi
+      ((List.replicate m (I.hi - I.lo)).map (fun d => rho p q / S * d)) (rho p q / S * firstLeg I p.z up) 0 up
+    have hne : (p :: uMid p.x p.y (Real.cos (phi p q)) (Real.sin (phi p q)) I.lo I.hi 0 up
+        (rho p q / S * firstLeg I p.z up :: (List.replicate m (I.hi - I.lo)).map (fun d => rho p q / S * d))) ≠ [] := by
+      simp
+    have hg := List.getLast?_eq_some_getLast hne
+    rw [List.getLast?_cons, hlast] at hg
+    simp only [Option.getD_some, Option.some.injEq, List.length_map, List.length_replicate] at hg
+    rw [← hg]
+    simp only [List.sum_cons, sum_map_mul, sum_replicate, ← hk]
+    rw [← hz]
+    congr 1
+    congr 1
+    · rw [hxq]
+      have : k * firstLeg I p.z up + k * (m * (I.hi - I.lo)) = rho p q - k * dl := by
+        rw [← hkS, ← hsumS]; ring
+      rw [this]; ring
+    · rw [hyq]
+      have : k * firstLeg I p.z up + k * (m * (I.hi - I.lo)) = rho p q - k * dl := by
+        rw [← hkS, ← hsumS]; ring
+      rw [this]; ring
+  rw [hL, hR]
+  rw [normalize_scale dl hl ⟨k * Real.cos (phi p q), k * Real.sin (phi p q), σf⟩,
+    normalize_scale S hS ⟨k * Real.cos (phi p q), k * Real.sin (phi p q), σf⟩]
+
+/-- reversing the vertical component commutes with normalisation -/
+theorem normalize_flipz (t : ℝ) (ht : t * t = 1) (v : P3) :
+    PyrexR.Uni.normalize ⟨v.x, v.y, t * v.z⟩ =
+      ⟨(PyrexR.Uni.normalize v).x, (PyrexR.Uni.normalize v).y, t * (PyrexR.Uni.normalize v).z⟩ := by
+  have hm : v.x * v.x + v.y * v.y + t * v.z * (t * v.z) = v.x * v.x + v.y * v.y + v.z * v.z := by
+    have : t * v.z * (t * v.z) = (t * t) * (v.z * v.z) := by ring
+    rw [this, ht, one_mul]
+  unfold PyrexR.Uni.normalize
+  simp only [Rsqrt, hm]
+  split_ifs
+  · rfl
+  · simp only [P3.mk.injEq, true_and]; ring
+
+end PyrexProofs
